@@ -109,7 +109,7 @@ Lemma inflection_points_sound pts rise run idx :
     at' (fd2 ROps pts rise run) i * at' (fd2 ROps pts rise run) (S i) <= 0.
 Proof.
   unfold inflection_points. destruct (Nat.ltb (length pts) 2); [discriminate|].
-  destruct (increasing_b ROps (coords ROps pts run)); [|discriminate].
+  destruct (monotone_b ROps (coords ROps pts run)); [|discriminate].
   intros H; inversion H; subst; clear H. split; [apply flatnonzero_sorted|].
   intros i Hi. unfold inflection_indices in Hi. apply flatnonzero_spec in Hi.
   unfold inflection_mask in Hi. apply nth_error_map_seq_some in Hi. destruct Hi as [Hlt Hv].
@@ -162,7 +162,7 @@ Lemma point_of_max_acceleration_sound pts rise run i :
   forall j, is_valid pts rise run j -> at' (fd2 ROps pts rise run) j <= at' (fd2 ROps pts rise run) i.
 Proof.
   unfold point_of_max_acceleration. destruct (Nat.ltb (length pts) 2); [discriminate|].
-  destruct (increasing_b ROps (coords ROps pts run)); [|discriminate].
+  destruct (monotone_b ROps (coords ROps pts run)); [|discriminate].
   intros H; inversion H as [H1]; clear H. unfold max_acceleration_index, argmax_valid in H1.
   destruct (flatnonzero (valid_mask ROps (fd1 ROps pts rise run))) as [|c cs] eqn:Ec; [discriminate|].
   inversion H1 as [H2]; clear H1.
@@ -178,7 +178,7 @@ Lemma point_of_max_acceleration_none pts rise run :
   point_of_max_acceleration ROps pts rise run = Ok (Some None) -> forall j, ~ is_valid pts rise run j.
 Proof.
   unfold point_of_max_acceleration. destruct (Nat.ltb (length pts) 2); [discriminate|].
-  destruct (increasing_b ROps (coords ROps pts run)); [|discriminate].
+  destruct (monotone_b ROps (coords ROps pts run)); [|discriminate].
   intros H; inversion H as [H1]; clear H. unfold max_acceleration_index, argmax_valid in H1.
   destruct (flatnonzero (valid_mask ROps (fd1 ROps pts rise run))) as [|c cs] eqn:Ec; [|discriminate].
   intros j Hj. unfold is_valid in Hj. apply flatnonzero_spec in Hj. rewrite Ec in Hj. exact Hj.
@@ -242,7 +242,7 @@ Lemma find_empty_nowrap_is_longer :
 Proof. split; reflexivity. Qed.
 
 Lemma point_of_max_acceleration_none_iff pts rise run :
-  (2 <= length pts)%nat -> increasing_b ROps (coords ROps pts run) = true ->
+  (2 <= length pts)%nat -> monotone_b ROps (coords ROps pts run) = true ->
   (point_of_max_acceleration ROps pts rise run = Ok (Some None) <-> forall j, ~ is_valid pts rise run j).
 Proof.
   intros Hn Hinc. split; [apply point_of_max_acceleration_none|].
@@ -254,3 +254,40 @@ Qed.
 
 Lemma find_length_not_preserved_for_empty : exists arr : list R, length (find_repeats ROps arr false) <> length arr.
 Proof. exists []. rewrite (proj1 find_empty_nowrap_is_longer). discriminate. Qed.
+
+(* soundness AND completeness of inflection_points on its domain, stated explicitly *)
+Lemma inflection_points_spec pts rise run :
+  (2 <= length pts)%nat -> monotone_b ROps (coords ROps pts run) = true ->
+  exists idx, inflection_points ROps pts rise run = Ok (Some idx) /\ StronglySorted lt idx /\
+    forall i, In i idx <->
+      ((S i < length pts)%nat /\ at' (fd2 ROps pts rise run) i * at' (fd2 ROps pts rise run) (S i) <= 0).
+Proof.
+  intros Hn Hm. exists (inflection_indices ROps pts rise run).
+  assert (E : inflection_points ROps pts rise run = Ok (Some (inflection_indices ROps pts rise run))).
+  { unfold inflection_points. replace (Nat.ltb (length pts) 2) with false by (symmetry; apply Nat.ltb_ge; lia).
+    rewrite Hm. reflexivity. }
+  split; [exact E|]. destruct (inflection_points_sound _ _ _ _ E) as [Hs Hall]. split; [exact Hs|].
+  intros i. split; [intros Hi; destruct (Hall i Hi) as [H1 [_ H2]]; auto|].
+  intros [Hlt Hle]. unfold inflection_indices. apply flatnonzero_spec. unfold inflection_mask.
+  rewrite nth_error_map_seq by (rewrite fd2_length; lia). f_equal. rewrite fd2_length.
+  replace (Nat.ltb (S i) (length pts)) with true by (symmetry; apply Nat.ltb_lt; exact Hlt).
+  rops. unfold n0; rops. apply Rleb_true. simpl. lra.
+Qed.
+
+(* a zig-zag with a non-empty answer (non-vacuity of the inflection theorems) *)
+Lemma zig_monotone :
+  monotone_b ROps (coords ROps [V3 0 0 0; V3 1 1 0; V3 2 0 0; V3 3 1 0] (V3 1 0 0)) = true.
+Proof.
+  unfold monotone_b. replace (increasing_b ROps (coords ROps [V3 0 0 0; V3 1 1 0; V3 2 0 0; V3 3 1 0] (V3 1 0 0))) with true;
+    [reflexivity|].
+  cbv [increasing_b coords map vdot vx vy vz]; rops.
+  repeat (rewrite (proj2 (Rltb_true _ _)) by lra). reflexivity.
+Qed.
+Lemma zig_example : exists idx,
+  inflection_points ROps [V3 0 0 0; V3 1 1 0; V3 2 0 0; V3 3 1 0] (V3 0 1 0) (V3 1 0 0) = Ok (Some idx) /\ In 1%nat idx.
+Proof.
+  destruct (inflection_points_spec [V3 0 0 0; V3 1 1 0; V3 2 0 0; V3 3 1 0] (V3 0 1 0) (V3 1 0 0)) as [idx [E [_ H]]];
+    [cbn; lia|exact zig_monotone|].
+  exists idx. split; [exact E|]. apply H. split; [cbn; lia|].
+  cbv -[Rplus Rminus Rmult Rdiv Ropp Rinv Rle IZR]; rops. lra.
+Qed.
